@@ -360,7 +360,7 @@ mapkey-undef index-str index-nonmap argcount argcount-more argkind argkind-meth 
 panic-func panic-func-if panic-func-arg panic-func-return panic-method panic-conc nil-func break-outside continue-outside
 unbounded-for unbounded-nested range-noniter range-int unbounded-continue unbounded-continue-if index-write-conc
 index-read-conc store-kind-conc argcount-conc argkind-conc nil-deref-conc nil-func-conc undef-func-conc undef-method-conc
-panic-method-conc panic-three-conc unexp-return unexp-return-local unexp-arg unexp-set unexp-conc panic-three undef-root-3 local-root-3 local-root-3-if""".split()
+panic-method-conc panic-three-conc unexp-return unexp-return-local unexp-arg unexp-set unexp-conc panic-three undef-root-3 local-root-3 local-root-3-if read-unbound""".split()
 
 
 BENIGN_CODES = ["grow-range", "grow-range-map", "long-for", "nested-for", "range-in-for", "break-inner"]
@@ -415,6 +415,11 @@ def c09(run):
                     beh = dict((n, b) for n, b in r["beh"])
                     decl = [{"name": ru["name"], "sal": ru["sal"], "tpl": ("F:" + code) if beh[ru["name"]] == "fault" else "A"}
                             for ru in r["rules"]]
+                    if code == "read-unbound":
+                        # the faulting rule that runs first (highest salience) binds the name and dies; the others read it
+                        fr = sorted((d for d in decl if d["tpl"].startswith("F:")), key=lambda d: -d["sal"])
+                        if fr:
+                            fr[0]["tpl"] = "F:bind-then-panic"
                     call = {"method": r["method"], "via": "direct", "b": r["b"], "names": r["names"], "n": r["n"], "m": r["m"],
                             "dag": r["dag"], "beh": beh, "tagset": []}
                     healthy = dict(call, beh={n: rng.choice(["ok", "ret"]) for n in beh})
